@@ -1131,6 +1131,7 @@ theorem step_inv {w : W cr} (h : Inv w) (op : Op) : Inv (w.step op).2 := by
   | changePw a o n sa => exact changePassword_inv h a o n sa
   | changeScheme a s => exact changeScheme_inv h a s
   | reload => exact (reload_spec h).1
+  | openOther m => exact h
 
 theorem run_inv {w : W cr} (h : Inv w) (ops : List Op) : Inv (W.run w ops) := by
   induction ops generalizing w with
@@ -1209,6 +1210,7 @@ theorem step_fileOK {w : W cr} (h : FileOK w) (op : Op) : FileOK (w.step op).2 :
     simp only [W.step, W.changeScheme]
     repeat' split
     all_goals first | exact h | exact hs _
+  | openOther m => exact h
   | reload =>
     simp only [W.step, W.reload]
     rcases h with ⟨hf, hl⟩ | hf
@@ -1263,5 +1265,47 @@ theorem single_default {w : W cr} (h : Inv w) :
     obtain ⟨id, hm, hd⟩ := mem_records.mp ha
     have := (h.idx.dflt id).mpr ⟨hm, a, hd, had⟩
     simp [W.metaDefault, this, hd]
+
+
+/-- no operation changes the wallet's scrypt parameters -/
+theorem step_prm {w : W cr} (h : Inv w) (op : Op) : (w.step op).2.prm = w.prm := by
+  cases op with
+  | new l s p sk a sa =>
+    simp only [W.step, W.newAccount, W.addAccountData]
+    repeat' split
+    all_goals rfl
+  | imp l al s p sk a sa m d =>
+    simp only [W.step, W.importAccount, W.addAccountData]
+    repeat' split
+    all_goals rfl
+  | del a p =>
+    simp only [W.step, W.deleteAccount]
+    repeat' split
+    all_goals rfl
+  | setDefault a =>
+    simp only [W.step, W.setDefault, W.clearDefault]
+    repeat' split
+    all_goals rfl
+  | setLabel a l =>
+    simp only [W.step, W.setLabel]
+    repeat' split
+    all_goals rfl
+  | changePw a o n sa =>
+    simp only [W.step, W.changePassword]
+    repeat' split
+    all_goals rfl
+  | changeScheme a s =>
+    simp only [W.step, W.changeScheme]
+    repeat' split
+    all_goals rfl
+  | reload => exact (reload_spec h).2.2
+  | openOther m => rfl
+
+theorem run_prm {w : W cr} (h : Inv w) (ops : List Op) : (W.run w ops).prm = w.prm := by
+  induction ops generalizing w with
+  | nil => rfl
+  | cons op r ih =>
+    simp only [W.run]
+    rw [ih (step_inv h op), step_prm h op]
 
 end OntVerif.Proofs.Wallet
